@@ -14,8 +14,16 @@ def recursive_sites(fx):
     recursive search functions (negamax, quiescence) or drives them (aspiration_search)."""
     sb = search_bodies(fx)
     targets = {sb[k].name for k in SEARCH_FNS[:3]}
+    bodies = list(sb.values())
+    # a closure of a search function that wraps recursive calls and hands their Result on (seed C09-14a): the calls inside it are
+    # sites of their own, and the call of the closure is a site of the enclosing function - its Err edge is an aborted child search too
+    for c in fx.fn_bodies():
+        if c.kind == "Closure" and "Result<" in c.local_ty(0) and any(c.name.startswith(p.name + "::{closure") for p in sb.values()):
+            if any((fx.body(callee_name(t)) if callee_name(t) else None) is not None and fx.body(callee_name(t)).name in targets for _, t in c.calls()):
+                bodies.append(c)
+    targets = targets | {c.name for c in bodies[len(sb):]}
     out = []
-    for b in sb.values():
+    for b in bodies:
         for bb, t in b.calls():
             cn = callee_name(t)
             cb = fx.body(cn) if cn else None
